@@ -40,6 +40,25 @@ Proof.
   intros H. unfold try_attestation, process_attestation, branch, commit. rewrite H. reflexivity.
 Qed.
 
+(* the vote transaction: a handler error is tolerated (event observed, vote kept), a handler PANIC is not — the transaction
+   fails and nothing of it stays, so the event is not observed and the vote is not recorded *)
+Lemma claim_tx_error S (handler : S -> result S) mark cleanup hp record finish pre x :
+  hp (mark (record pre)) = Some (Err x) ->
+  claim_tx S mark cleanup hp record finish pre = (finish (att_designated S mark cleanup (record pre)), 1).
+Proof. intros H. unfold claim_tx, att_designated, discard. rewrite H. reflexivity. Qed.
+
+Lemma claim_tx_panic S mark cleanup (hp : S -> option (result S)) record finish pre :
+  hp (mark (record pre)) = None -> claim_tx S mark cleanup hp record finish pre = (pre, 2).
+Proof. intros H. unfold claim_tx. rewrite H. reflexivity. Qed.
+
+Lemma claim_tx_agrees S (handler : S -> result S) mark cleanup record finish pre :
+  claim_tx S mark cleanup (fun s => Some (handler s)) record finish pre =
+  (let (s, ok) := try_attestation S handler mark cleanup (record pre) in (finish s, if ok then 0 else 1)).
+Proof.
+  unfold claim_tx, try_attestation, process_attestation, branch, commit, discard.
+  destruct (handler (mark (record pre))); reflexivity.
+Qed.
+
 (* ------------------------------------------------------------------------------------------ *)
 (** * boundary 3: gov *)
 
